@@ -302,7 +302,7 @@ func TestC20(t *testing.T) {
 		fmt.Println("REPLAY case passed")
 		return
 	}
-	ev.Rule("(a) 20 published RGB spaces; (b) rapid triangles inside the chromaticity diagram with area >= 0.01 (a third with primaries sharing coordinates exactly) and every ordered lattice triangle of a 5x5 (thorough 8x8) grid, and white = barycentric mix with weights >= 0.05; (c) rapid 3x3 matrices with entries in [-4,4], |det| >= 1e-3; (d) exactly singular small-integer matrices (zero/repeated column or row, integer linear dependence). an eighth of the rapid cases directly follow a request outside the domain (non-finite or degenerate arguments) whose answer is ignored. non-trivial = generated triangle (not a built-in space) or matrix with condition number > 10")
+	ev.Rule("(a) 20 published RGB spaces; (b) rapid triangles inside the chromaticity diagram with area >= 0.01 (a third with primaries sharing coordinates exactly) and every ordered lattice triangle of a 5x5 (thorough 8x8) grid, and white = barycentric mix with weights >= 0.05; (c) rapid 3x3 matrices with entries in [-4,4], |det| >= 1e-3; (d) exactly singular small-integer matrices (zero/repeated column or row, integer linear dependence) and matrices with a repeated or zero column whose entries are decimal fractions or arbitrary floats. an eighth of the rapid cases directly follow a request outside the domain (non-finite or degenerate arguments) whose answer is ignored. non-trivial = generated triangle (not a built-in space) or matrix with condition number > 10")
 	ev.Assume("internal/ref row-major Gauss-Jordan algebra")
 	for _, p := range append(append([]Prim(nil), published...), Prim{Name: "sRGB, white Y=5e-4", R: published[0].R, G: published[0].G, B: published[0].B, W: published[0].W, WY: 5e-4},
 		Prim{Name: "sRGB primaries given with their own luminances", R: published[0].R, G: published[0].G, B: published[0].B, W: published[0].W, PY: [3]float32{0.2126, 0.7152, 0.0722}},
@@ -550,6 +550,31 @@ func TestC20(t *testing.T) {
 		}
 		if rapid.Bool().Draw(rt, "transpose") {
 			m = ref.M3(m).T()
+		}
+		if rapid.IntRange(0, 3).Draw(rt, "realcolumns") == 0 {
+			// "built from repeated or zero columns" with entries that are NOT small integers: decimal fractions and
+			// arbitrary floats, whose products are inexact.  A repeated or zero column makes the cofactor expansion
+			// cancel term by term whatever the rounding, so the documented panic is owed here too (a repeated ROW
+			// is not exact in floating point and is not demanded)
+			fv := func(l string) float64 {
+				if rapid.Bool().Draw(rt, l+"dec") {
+					return float64(rapid.IntRange(-40, 40).Draw(rt, l+"tenths")) / 10
+				}
+				return rapid.Float64Range(-4, 4).Draw(rt, l)
+			}
+			col := [3]float64{fv("c"), fv("c"), fv("c")}
+			other := [3]float64{fv("o"), fv("o"), fv("o")}
+			pq := rapid.SampledFrom([][3]int{{0, 1, 2}, {0, 2, 1}, {1, 2, 0}}).Draw(rt, "which")
+			kind = 5
+			if rapid.IntRange(0, 3).Draw(rt, "zerocol") == 0 {
+				kind = 6
+			}
+			for r := 0; r < 3; r++ {
+				m[r][pq[0]], m[r][pq[1]], m[r][pq[2]] = col[r], col[r], other[r]
+				if kind == 6 {
+					m[r][pq[0]], m[r][pq[1]] = 0, fv("p")
+				}
+			}
 		}
 		c := MatCase{Op: "singular", A: m}
 		ev.Eval(1)
